@@ -38,7 +38,7 @@ def run_one(rec, profile=False):
         sys.setprofile(prof)
     try:
         try:
-            ok, cls = h.body(*rec.get("args", []), **rec.get("kwargs", {}))
+            ok, cls = h.body(*core.from_json(rec.get("args", [])), **core.from_json(rec.get("kwargs", {})))
             exc = None
         except Exception as e:
             import traceback
@@ -49,7 +49,7 @@ def run_one(rec, profile=False):
     res = {"ok": bool(ok), "cls": cls, "exc": exc, "funcs": sorted(funcs)}
     if h.real_replay is not None:
         try:
-            rr = h.real_replay(rec.get("args", []), ctx.PART)
+            rr = h.real_replay(core.from_json(rec.get("args", [])), ctx.PART)
         except Exception as e:  # the real-environment replay itself failed to run
             import traceback
             rr = (None, "real replay crashed: " + traceback.format_exc(limit=3))
